@@ -194,14 +194,13 @@ func (_this *cteListener) ExitValueInt(ctx *parser.ValueIntContext) {
 		_this.wrapPanic(recover(), ctx.BaseParserRuleContext)
 	}()
 
-	str := ctx.GetText()
-	str = strings.ReplaceAll(str, "_", "")
+	str, base := normalizeIntString(ctx.GetText(), 0)
 	isNegative := false
 	if str[0] == '-' {
 		isNegative = true
 	}
 
-	if v, err := strconv.ParseInt(str, 0, 64); err == nil {
+	if v, err := strconv.ParseInt(str, base, 64); err == nil {
 		if v == 0 && isNegative {
 			_this.eventReceiver.OnNegativeInt(0)
 		} else {
@@ -211,7 +210,7 @@ func (_this *cteListener) ExitValueInt(ctx *parser.ValueIntContext) {
 	}
 
 	bigInt := &big.Int{}
-	if _, success := bigInt.SetString(str, 0); success {
+	if _, success := bigInt.SetString(str, base); success {
 		_this.eventReceiver.OnBigInt(bigInt)
 		return
 	}
@@ -1141,7 +1140,38 @@ func appendUID(str string, dst []byte) []byte {
 	return dst
 }
 
+// Split an integer literal into its sign and digits, and its base. Go's own base
+// detection (base 0) reads a leading 0 as octal and restricts where a '_' may go;
+// CTE does neither.
+func normalizeIntString(str string, base int) (string, int) {
+	str = strings.ReplaceAll(str, "_", "")
+	if base != 0 {
+		return str, base
+	}
+	sign := ""
+	if str[0] == '-' {
+		sign = "-"
+		str = str[1:]
+	}
+	base = 10
+	if len(str) > 2 && str[0] == '0' {
+		switch str[1] {
+		case 'b', 'B':
+			base = 2
+		case 'o', 'O':
+			base = 8
+		case 'x', 'X':
+			base = 16
+		}
+		if base != 10 {
+			str = str[2:]
+		}
+	}
+	return sign + str, base
+}
+
 func parseUintElement(str string, base int, bitSize int, result []byte) []byte {
+	str, base = normalizeIntString(str, base)
 	element, err := strconv.ParseUint(str, base, bitSize)
 	if err != nil {
 		panic(fmt.Errorf("error parsing uint element: %v", err))
@@ -1161,6 +1191,7 @@ func parseUintElement(str string, base int, bitSize int, result []byte) []byte {
 }
 
 func parseIntElement(str string, base int, bitSize int, result []byte) []byte {
+	str, base = normalizeIntString(str, base)
 	element, err := strconv.ParseInt(str, base, bitSize)
 	if err != nil {
 		panic(fmt.Errorf("error parsing int element: %v", err))
